@@ -31,6 +31,8 @@ pub struct SCol {
     pub special: bool,
     /// physical INTEGER (Int32) column: mixing it with BIGINT in join keys / COALESCE / CASE hits engine defects (feature `mixed_width`)
     pub narrow: bool,
+    /// integer expression over INTEGER columns: its physical width is the engine's business — never used as a join / IN key unless `mixed_width`
+    pub wunk: bool,
     /// column of a derived table / CTE / VALUES list (grouped SUM over such a column hits an engine defect: feature `sum_derived`)
     pub derived: bool,
     /// a few values that occur in the column (literals for comparisons)
@@ -114,7 +116,7 @@ impl<'a> Gen<'a> {
             for row in tb.rows.iter().take(40) { let v = &row[ci]; if !v.is_null() && !samples.contains(v) { samples.push(v.clone()); if samples.len() >= 6 { break; } } }
             SCol { ty: c.cty.ty(), sql: format!("{}.{}", alias, c.name), name: c.name.clone(), nullable: c.null_pct > 0, ncomp: false, rel: 0,
                    bits: if c.boundary || c.special || !c.cty.ty().numeric() { None } else if c.unique { Some(12) } else { Some(6) },
-                   special: c.special, narrow: c.cty == super::ColTy::I32, derived: false, samples }
+                   special: c.special, narrow: c.cty == super::ColTy::I32, wunk: false, derived: false, samples }
         }).collect()
     }
     fn requalify(out: &Scope, alias: &str) -> Scope {
@@ -145,7 +147,7 @@ impl<'a> Gen<'a> {
     fn wide_ref(&mut self, sc: &Scope, i: usize) -> Expr {
         if sc[i].narrow && !self.on("mixed_width") { Expr::Cast(Box::new(Self::col_ref(sc, i)), Ty::Int) } else { if sc[i].narrow { self.tag("mixed_width"); } Self::col_ref(sc, i) }
     }
-    fn same_width(&self, a: &SCol, b: &SCol) -> bool { a.narrow == b.narrow || self.on("mixed_width") }
+    fn same_width(&self, a: &SCol, b: &SCol) -> bool { (a.narrow == b.narrow && !a.wunk && !b.wunk) || self.on("mixed_width") }
 
     /// scalar expression of type `ty`; returns (expr, bits bound, a column it is "near" for literal choice)
     pub fn scalar(&mut self, sc: &Scope, ty: Ty, depth: usize) -> (Expr, Option<u32>) {
@@ -375,7 +377,7 @@ impl<'a> Gen<'a> {
             _ => {
                 // col op (SELECT agg(y) FROM … ) — a global aggregate yields exactly one row
                 let mut cands = vec![];
-                for (ii, ic) in inner.iter().enumerate() { for (oi, oc) in sc.iter().enumerate() { if ic.ty == oc.ty && (ic.ty == Ty::Int || ic.ty == Ty::Date || ic.ty == Ty::Str) && ic.bits.is_some() == oc.bits.is_some() && self.same_width(ic, oc) { cands.push((ii, oi)); } } }
+                for (ii, ic) in inner.iter().enumerate() { for (oi, oc) in sc.iter().enumerate() { if ic.ty == oc.ty && (ic.ty == Ty::Int || ic.ty == Ty::Date || (ic.ty == Ty::Str && self.on("str_minmax"))) && ic.bits.is_some() == oc.bits.is_some() && self.same_width(ic, oc) { cands.push((ii, oi)); } } }
                 if cands.is_empty() { return None; }
                 let (ii, oi) = *self.r.pick(&cands);
                 let f = *self.r.pick(&[AggFn::Min, AggFn::Max]);
@@ -482,7 +484,7 @@ impl<'a> Gen<'a> {
             }).collect();
             rows.push(row);
         }
-        let out: Scope = tys.iter().enumerate().map(|(i, &ty)| SCol { ty, sql: format!("column{}", i), name: format!("column{}", i), nullable: rows.iter().any(|r: &Vec<Expr>| matches!(r[i], Expr::Lit(Val::Null, _))), ncomp: rows.iter().any(|r: &Vec<Expr>| matches!(r[i], Expr::Lit(Val::Null, _))), bits: if ty.numeric() { Some(5) } else { None }, special: false, narrow: false, derived: false, rel: 0, samples: vec![] }).collect();
+        let out: Scope = tys.iter().enumerate().map(|(i, &ty)| SCol { ty, sql: format!("column{}", i), name: format!("column{}", i), nullable: rows.iter().any(|r: &Vec<Expr>| matches!(r[i], Expr::Lit(Val::Null, _))), ncomp: rows.iter().any(|r: &Vec<Expr>| matches!(r[i], Expr::Lit(Val::Null, _))), bits: if ty.numeric() { Some(5) } else { None }, special: false, narrow: false, wunk: false, derived: false, rel: 0, samples: vec![] }).collect();
         self.tag("values");
         (QueryExpr::of(Body::Values(rows)), out)
     }
@@ -521,7 +523,7 @@ impl<'a> Gen<'a> {
         let ty = *self.r.pick(&tys);
         let cols = self.cols_of(sc, ty); let i = *self.r.pick(&cols);
         // MIN / MAX of a string group without a non-NULL value comes out as '' in the engine: feature `null_str_minmax`
-        if ty == Ty::Str && sc[i].nullable && (!self.on("null_str_minmax") || (sc[i].ncomp && !self.on("computed_null_key"))) { return (AggCall { f: AggFn::Count, arg: Some(Self::col_ref(sc, i)), distinct: false }, Ty::Int, Some(12)); }
+        if ty == Ty::Str && (!self.on("str_minmax") || (sc[i].nullable && (!self.on("null_str_minmax") || (sc[i].ncomp && !self.on("computed_null_key"))))) { return (AggCall { f: AggFn::Count, arg: Some(Self::col_ref(sc, i)), distinct: false }, Ty::Int, Some(12)); }
         self.tag("minmax");
         let arg = self.wide_ref(sc, i);
         (AggCall { f: if self.r.chance(1, 2) { AggFn::Min } else { AggFn::Max }, arg: Some(arg), distinct: false }, ty, sc[i].bits)
@@ -571,7 +573,7 @@ impl<'a> Gen<'a> {
             for _ in 0..na {
                 let (c, ty, bits) = self.agg_call(&sc, !keys.is_empty());
                 if gs && aggs.iter().any(|a: &AggCall| a.sql() == c.sql()) { continue; }
-                post.push(SCol { ty, sql: c.sql(), name: String::new(), nullable: !matches!(c.f, AggFn::Count | AggFn::CountStar), ncomp: !matches!(c.f, AggFn::Count | AggFn::CountStar), bits, special: false, narrow: false, derived: false, rel: 0, samples: vec![] });
+                post.push(SCol { ty, sql: c.sql(), name: String::new(), nullable: !matches!(c.f, AggFn::Count | AggFn::CountStar), ncomp: !matches!(c.f, AggFn::Count | AggFn::CountStar), bits, special: false, narrow: false, wunk: false, derived: false, rel: 0, samples: vec![] });
                 aggs.push(c);
             }
             let sets = if gs {
@@ -590,7 +592,7 @@ impl<'a> Gen<'a> {
                 };
                 self.tag(match kind { GsKind::Rollup => "rollup", GsKind::Cube => "cube", GsKind::Sets => "grouping_sets" });
                 let all: Vec<String> = keys.iter().map(|k| k.sql()).collect();
-                post.push(SCol { ty: Ty::Int, sql: format!("GROUPING({})", all.join(", ")), name: String::new(), nullable: false, ncomp: false, bits: Some(4), special: false, narrow: false, derived: false, rel: 0, samples: vec![] });
+                post.push(SCol { ty: Ty::Int, sql: format!("GROUPING({})", all.join(", ")), name: String::new(), nullable: false, ncomp: false, bits: Some(4), special: false, narrow: false, wunk: false, derived: false, rel: 0, samples: vec![] });
                 // keys absent from a set come out NULL
                 for c in post.iter_mut().take(n) { c.nullable = true; }
                 Some((kind, sets))
@@ -610,7 +612,7 @@ impl<'a> Gen<'a> {
                 o.push(SCol { sql: al.clone(), name: al.clone(), bits, samples: vec![], ..post[i].clone() });
                 proj.push((e, al));
             }
-            if proj.is_empty() { let al = self.alias(); proj.push((Expr::lit_i(1), al.clone())); o.push(SCol { ty: Ty::Int, sql: al.clone(), name: al, nullable: false, ncomp: false, bits: Some(1), special: false, narrow: false, derived: false, rel: 0, samples: vec![] }); }
+            if proj.is_empty() { let al = self.alias(); proj.push((Expr::lit_i(1), al.clone())); o.push(SCol { ty: Ty::Int, sql: al.clone(), name: al, nullable: false, ncomp: false, bits: Some(1), special: false, narrow: false, wunk: false, derived: false, rel: 0, samples: vec![] }); }
             sel = Select { from: Some(from), where_, group: Some(Group { keys, aggs, sets }), having, proj, distinct: false };
             out = o;
         } else {
@@ -630,7 +632,9 @@ impl<'a> Gen<'a> {
                     let tys: Vec<Ty> = usable.iter().map(|&i| sc[i].ty).collect();
                     let ty = if tys.is_empty() { Ty::Int } else { *self.r.pick(&tys) };
                     let (e, bits) = self.scalar(&sc, ty, self.o.max_depth.min(2));
-                    o.push(SCol { ty, sql: al.clone(), name: al.clone(), nullable: true, ncomp: true, bits, special: false, narrow: false, derived: false, rel: 0, samples: vec![] });
+                    let mut wunk = false;
+                    e.visit(&mut |x| if let Expr::Col { i, .. } = x { if sc[*i].narrow || sc[*i].wunk { wunk = true; } });
+                    o.push(SCol { ty, sql: al.clone(), name: al.clone(), nullable: true, ncomp: true, bits, special: false, narrow: false, wunk, derived: false, rel: 0, samples: vec![] });
                     proj.push((e, al));
                 } else {
                     let i = *self.r.pick(&usable);
@@ -644,7 +648,7 @@ impl<'a> Gen<'a> {
         }
         if primary == "subquery" && self.on("scalar_select") && self.r.chance(1, 4) {
             // correlated scalar subquery in the SELECT list
-            if let Some((e, ty)) = self.scalar_select_item(&sel) { let al = self.alias(); sel.proj.push((e, al.clone())); let mut o2 = out.clone(); o2.push(SCol { ty, sql: al.clone(), name: al, nullable: true, ncomp: true, bits: None, special: false, narrow: false, derived: false, rel: 0, samples: vec![] }); return self.finish_block(sel, o2, primary, top); }
+            if let Some((e, ty)) = self.scalar_select_item(&sel) { let al = self.alias(); sel.proj.push((e, al.clone())); let mut o2 = out.clone(); o2.push(SCol { ty, sql: al.clone(), name: al, nullable: true, ncomp: true, bits: None, special: false, narrow: false, wunk: false, derived: false, rel: 0, samples: vec![] }); return self.finish_block(sel, o2, primary, top); }
         }
         self.finish_block(sel, out, primary, top)
     }
@@ -660,7 +664,7 @@ impl<'a> Gen<'a> {
         if pairs.is_empty() { return None; }
         let (ii, oi) = *self.r.pick(&pairs);
         let w = Expr::bin(BinOp::Eq, Self::col_ref(&inner, ii), Expr::Outer { d: 1, i: oi, sql: sc[oi].sql.clone() });
-        let tys: Vec<usize> = (0..inner.len()).filter(|&i| inner[i].ty != Ty::Bool).collect();
+        let tys: Vec<usize> = (0..inner.len()).filter(|&i| inner[i].ty != Ty::Bool && (inner[i].ty != Ty::Str || self.on("str_minmax"))).collect();
         let ai = *self.r.pick(&tys);
         let arg = self.wide_ref(&inner, ai);
         let call = AggCall { f: *self.r.pick(&[AggFn::Max, AggFn::Min, AggFn::Count]), arg: Some(arg), distinct: false };
